@@ -1031,4 +1031,25 @@ class MapLocations(Harness):
         return f"map_locations of {locs} into intervals {ivs}: (interval, relative position) = {got}, expected {exp}"
 
 
-HARNESSES = [Coords(), GenomeOps(), Binned(), ValuesUnderIntervals(), GeometryOps(), MapLocations()]
+
+from checks.C11 import Pipelines as _Pipelines, chunkings as _chunkings
+
+
+class StreamedChromosomes(_Pipelines):
+    """the same whole-genome results evaluated chromosome by chromosome (streamed intervals): chromosomes without entries -- before, between
+    and after the others -- still get their (empty) per-chromosome result (the C11 pipeline harness under its C10 name, on these layouts)"""
+    name = "streamed_chromosomes"
+    bounds = {"quick": "genome {chr1:2, chr10:1, chr2:3} and {chr1:3, chr2:2}; 2 sorted intervals placed so that the first, the middle or the LAST "
+                       "chromosome(s) have no entries; symbolic coordinates; both chunkings; pileup and mask records",
+              "thorough": "3 intervals, all 4 chunkings"}
+
+    def skeletons(self, tier, seed):
+        n = 2 if tier == "quick" else 3
+        assign = {"g3": [[0, 0], [1, 1], [2, 2], [0, 2], [0, 1]], "g2": [[0, 0], [1, 1]]}
+        if tier == "thorough":
+            assign = {"g3": [[0, 0, 0], [1, 1, 1], [2, 2, 2], [0, 2, 2], [0, 0, 1]], "g2": [[0, 0, 0], [1, 1, 1]]}
+        return [dict(genome=g, chroms=c, chunks=ch, what=what) for g, sets in assign.items() for c in sets for ch in _chunkings(n)
+                for what in ("pileup", "mask")]
+
+
+HARNESSES = [Coords(), GenomeOps(), Binned(), ValuesUnderIntervals(), GeometryOps(), MapLocations(), StreamedChromosomes()]
